@@ -64,6 +64,16 @@ class C16(StdCheck):
             "evaluations of the model's plain semantics + API per-object evaluations; a case is non-trivial when an apply rule created an "
             "object or the API fast path returned an object; distinct by hash of the case (counted by the Lean driver)")
 
+    def build_harness(self):
+        # negative controls / seeded changes are linked in scratch with one object file swapped (corpus/C16/negative_controls/README):
+        # VERIF_C16_HARNESS=<binary> runs the whole flow on such a binary instead of the one built from /repo
+        import os
+        alt = os.environ.get("VERIF_C16_HARNESS")
+        if alt:
+            core.log("C16: using harness binary from VERIF_C16_HARNESS=" + alt)
+            return alt
+        return super().build_harness()
+
     def correspondence(self, tier, seed, harness, driver):
         res = super().correspondence(tier, seed, harness, driver)
         st = res.stats
